@@ -387,6 +387,30 @@ def weave_fn(sc, fb, reach=False):
             body_first_line = text.count('\n', 0, toks[bo].end)
             inserts = []
             for (where, occ, rx, alines, tline) in fb.anchors:
+                if where == 'bindtail':
+                    # R14: the tail expression E of the body (everything after the last top-level `;`) becomes
+                    # `let NAME = E; <proof text> NAME` so that a proof block can follow a branching tail expression
+                    bc = match_close(toks, bo)
+                    depth, last_semi = 0, None
+                    for q in range(bo + 1, bc):
+                        tx = toks[q].text
+                        if toks[q].kind == 'punct':
+                            if tx in '([{':
+                                depth += 1
+                            elif tx in ')]}':
+                                depth -= 1
+                            elif tx == ';' and depth == 0:
+                                last_semi = q
+                    first = (last_semi + 1) if last_semi is not None else bo + 1
+                    if first >= bc:
+                        raise WeaveError(f'{fb.path}: bindtail: the body has no tail expression')
+                    if toks[first].kind == 'ident' and toks[first].text in ('for', 'while', 'loop', 'let'):
+                        raise WeaveError(f'{fb.path}: bindtail: a block statement precedes the tail expression')
+                    ins = ''.join(l + '\n' for l, _ in alines)
+                    inserts.append((toks[first].start, f'let {rx} = '))
+                    inserts.append((toks[bc - 1].end, f';\n{ins}{rx}\n'))
+                    counts['R14'] = counts.get('R14', 0) + 1
+                    continue
                 if where == 'tail':
                     # before the tail expression of the body (last non-blank line before the closing brace, when it
                     # is an expression), else just before the closing brace
@@ -642,6 +666,12 @@ def process_template(tmpl_path, repo, reach=False):
         elif d == 'tail':
             lst = []
             fb.anchors.append(('tail', 1, '', lst, tl))
+            fb.cur = lst
+        elif d == 'bindtail':
+            if not re.match(r'^\w+$', rest.strip()):
+                raise WeaveError(f'template line {tl}: //@bindtail needs a name')
+            lst = []
+            fb.anchors.append(('bindtail', 1, rest.strip(), lst, tl))
             fb.cur = lst
         elif d in ('before', 'after', 'afterstmt'):
             mm = re.match(r'^(\d+)\s+/(.*)/\s*$', rest)
